@@ -136,9 +136,13 @@ def make_sim(root, spec):
             for rl, lev in spec['levels'].items():
                 nx, ny, nz = lev['shape']
                 gx, gy, gz = lev['ghost']
-                boxes = lev['boxes']
-                perm = lev.get('perm') or list(range(len(boxes)))
                 for it in rs['its'].get(rl, []):
+                    boxes = lev['boxes']
+                    perm = lev.get('perm') or list(range(len(boxes)))
+                    if lev.get('boxes_late') and it >= lev['late_from']:
+                        # the level was regridded / re-distributed at this iteration
+                        boxes = lev['boxes_late']
+                        perm = list(range(len(boxes)))
                     full = np.full((nx + 2 * gx, ny + 2 * gy, nz + 2 * gz), SENTINEL)
                     full[gx:gx + nx, gy:gy + ny, gz:gz + nz] = truth(
                         var, it, rl, rs.get('rtag', 0), lev['shape'])
